@@ -11,6 +11,10 @@
 (***************************************************************************)
 EXTENDS DipTree, Json, IOUtils
 
+\* scenario names are single characters (a, b, g, h, -) or n<k>; only their order matters
+GenNameChars(c) == <<c>>
+GenCharOrd(ch) == CASE ch = "-" -> 45 [] ch = "a" -> 97 [] ch = "b" -> 98 [] ch = "g" -> 103 [] ch = "h" -> 104 [] OTHER -> 120
+
 CONSTANTS Protos,      \* set of [k, nm, c] line prototypes
           MaxInd, MaxLines, Emit, KnownDevs,
           Source       \* "enum" : all texts up to MaxLines ; "file" : the texts of the JSON file env DIP_IN
